@@ -1,19 +1,19 @@
 //go:build maporder
 
-package chain
+package maporder
 
 import _ "unsafe"
 
 //go:linkname verifIterOverride internal/runtime/maps.verifIterOverride
 var verifIterOverride uint64
 
-// MapOrderControlled reports whether this binary can fix Go's map iteration order.
-const MapOrderControlled = true
+// Controlled reports whether this binary can fix Go's map iteration order.
+const Controlled = true
 
-// SetMapIterOffset fixes the start offset of every map iteration of this
+// Set fixes the start offset of every map iteration of this
 // process (0..7 give all rotations of a map that fits one group); -1 restores
 // the runtime's random choice.
-func SetMapIterOffset(o int) {
+func Set(o int) {
 	if o < 0 {
 		verifIterOverride = 0
 		return
